@@ -21,6 +21,17 @@ def program(chk: Check) -> Program:
     return prog
 
 
+def value_equal_classes(prog: Program) -> List[str]:
+    """Concrete node classes whose instances compare by something else than identity (a user-defined __eq__ / __ne__):
+    tree primitives that compare nodes with == must be analysed with such nodes among the operands."""
+    out = []
+    for c in prog.classes.values():
+        if prog.is_subclass(c.name, "BinaryTreeNode") and (prog.find_method(c.name, "__eq__") or prog.find_method(c.name, "__ne__")):
+            if not any(prog.is_subclass(o.name, c.name) and o.name != c.name for o in prog.classes.values()):
+                out.append(c.name)
+    return sorted(out)
+
+
 def rule_records(chk: Check) -> List[dict]:
     recs = analyse_rules(str(REPO), chk.tier)
     chk.analysed["rule_paths"] = len(recs)
